@@ -41,8 +41,27 @@ def bits(x):
 
 
 def frs(x):
-    """exact rational string of a float / int"""
+    """exact rational string of a float / int; +-inf is rendered as +-10^30 (above every finite value generated; equal infinities stay tied)"""
+    if isinstance(x, float) and x in (float("inf"), float("-inf")):
+        return ("-" if x < 0 else "") + "1" + "0" * 30
     return str(Fraction(x))
+
+
+def extend_distances(rng, dist, ties):
+    """any distance callable is allowed: shift some matrices below zero, put real rows at an infinite distance (one per column when the distances are
+    meant to be distinct, several - hence tied - otherwise).  In place; returns a tag for the input distribution."""
+    tag = []
+    n, m = dist.shape
+    if rng.random() < 0.3:
+        dist -= float(rng.randrange(1, 8 * n + 8))
+        tag.append("negative")
+    if rng.random() < 0.3 and n >= 2:
+        for j in range(m):
+            k = 1 if not ties else rng.randint(1, min(3, n))
+            for i in rng.sample(range(n), k):
+                dist[i, j] = float("inf")
+        tag.append("infinite")
+    return "+".join(tag) or "plain"
 
 
 def kernel_case(rng, n, m, c, ties=False, util_kind="acc", big=False):
@@ -51,6 +70,7 @@ def kernel_case(rng, n, m, c, ties=False, util_kind="acc", big=False):
         dist = np.array([[float(rng.randrange(1, 4)) for _ in range(m)] for _ in range(n)], dtype=np.float64)
     else:
         dist = np.array([rng.sample(range(1, 8 * n + 8), n) for _ in range(m)], dtype=np.float64).T.copy()
+    extend_distances(rng, dist, ties)
     if util_kind == "acc":
         yv = [rng.randrange(c) for _ in range(m)]
         util = np.array([[1.0 if k == yv[j] else 0.0 for j in range(m)] for k in range(c)], dtype=np.float64)
